@@ -192,7 +192,7 @@ func (w *world) setup() bool {
 	rc.ReservationTTL = c.ttl
 	rc.MaxReservations = c.maxRes
 	rc.MaxReservationsPerIP = c.perIP
-	rc.MaxReservationsPerASN = 1000
+	rc.MaxReservationsPerASN = c.perASN
 	rc.MaxCircuits = c.maxCirc
 	rc.BufferSize = c.bufSize
 	opts := []relay.Option{relay.WithResources(rc)}
@@ -449,6 +449,9 @@ func (w *world) stopHandler(c *cli) func(network.Stream) {
 		case stopDisconnect:
 			simrt.GoNamed("stop-disconnect", func() { c.nd.Swarm.ClosePeer(w.R.nd.ID) })
 			return
+		}
+		if in.plan == stopSlowAccept {
+			simrt.TimeSleep(time.Second)
 		}
 		werr = wr.WriteMsg(&rep)
 		if werr != nil {
